@@ -340,7 +340,9 @@ fn main() {
         return;
     }
     let thorough = a.extra.iter().any(|x| x == "--exh4");
+    // largest deterministic chain / cycle; random graphs stay smaller (the Coq-side checker is cubic)
     let maxn: usize = if thorough { 200 } else { 40 };
+    let maxn_rand: usize = if thorough { 80 } else { 40 };
     // ---- exhaustive: every digraph on <= 3 (thorough: 4) vertices ----
     for n in 0..=3 {
         exhaustive(&mut st, n, &tmp);
@@ -404,7 +406,7 @@ fn main() {
     let mut k = 0usize;
     while st.next_id() < target {
         let mut r = rng.fork();
-        let (n, es, fam) = random_graph(&mut r, maxn);
+        let (n, es, fam) = random_graph(&mut r, maxn_rand);
         k += 1;
         // every 25th random case goes through the CSV loader
         add_case(&mut st, n, es, fam, k % 25 == 0, &tmp);
